@@ -8,8 +8,9 @@
      state.root v   = assigns[v]                      (root level only: the model never leaves decision level 0)
      state.clauses  = constrs (clause::lits), in creation order, literals in the order new_clause stored them
      state.exprs    = exprs; the string keys "b7", "=b1b2", "&b1¬b2", "|..", "amo..", "^.." are modelled
-                      structurally (KVar/KEq/KConj/KDisj/KAmo/KExct over the list of printed literals): the printed
-                      form is uniquely decodable ('b' starts every literal), so sharing behaviour is the same.
+                      structurally (KVar/KEq/KConj/KDisj/KAmo/KExct over the list of printed literals): the printers
+                      are modelled in smt/SatKeys.v and PROVED injective (proofs/SatKeys_Proofs.v), so the string lookup
+                      of the C++ is this structural lookup; the tie compares the C++ key strings with the extracted printer.
    External behaviour (Section variables, contracts stated in the proofs file):
      sortv  = std::sort(..., variable(l0) < variable(l1))   -- NOT stable in general
      sortl  = std::sort(ls.begin(), ls.end())               -- lit::operator< (variable, then sign)
